@@ -266,6 +266,22 @@ PROPS["C07"] = dict(
           job("table", "^TestErrorTable$", (1, 1), (1, 1), (300, 600)),
           job("fuzz", "", (0, 0), (0, 0), (0, 0), fuzz="FuzzSchemaAPI", fuzztime=120, tiers=("thorough",))],
 )
+PROPS["C11"] = dict(
+    pkg="c11", level="exploration",
+    packages={"c11m": dict(optional=True, overlay_cmd="go run ./cmd/maporder -repo {repo} -out {bdir}/maporder -hook {verif}/hooks/maporder.go")},
+    technique="stateful model-based testing (rapid state machine over a pool of objects; model = what a freshly built object returns; retained values snapshotted and re-compared after every step) + deterministic forced map-iteration orders via a source rewriter and build overlay",
+    level_text=("Histories: sequences of up to 12 (quick) / 40 (thorough) public operations over a pool of 3-5 schemas / documents / enum rules / regex types (valid and invalid), on several live objects per spec, "
+                "interleaved with operations on unrelated fresh objects; every result (verdict, code, position, AST, example bytes, used-type list, lexemes) must equal what a fresh object returns, and every "
+                "returned slice / AST must stay unchanged afterwards. Map orders: the current tree is rewritten so that each of its range-over-map sites iterates in a forced order (ascending, descending, "
+                "rotate 1, rotate 2); all results of a case must be equal across the four orders."),
+    level_note="trusted: the rewriter is semantics-preserving for a legal order (it re-checks key presence per iteration); forced orders are a strict subset of all permutations for maps with >3 entries; regex Example() is pseudo-random by design and only compared for success",
+    rule=("histories: actions create / op / touch-other; non-trivial = some (spec, op) repeated and ops on different specs interleaved; map orders: generated specs plus a family biased to the range sites "
+          "(several types, or alternatives, missing required keys, overlapping key shortcuts, allOf from two parents); non-trivial = a rewritten site iterated a map with >=2 entries (counted by the hook); "
+          "distinct by the step list / spec"),
+    assumptions=["error messages are not compared (required-key messages list keys in map order by design), only verdict, code, position and file"],
+    jobs=[job("histories", "^TestHistories$", (4, 16), (400, 4000), (900, 3000)),
+          job("map-orders", "^TestMapOrders$", (2, 16), (500, 6000), (900, 3000), pkg="c11m")],
+)
 
 _UNBUILT = "check under construction in this session (see DESIGN.md section 5 for the planned design)"
 NOT_APPLICABLE = [dict(property_id="C%02d" % i, reason=_UNBUILT) for i in range(1, 20) if "C%02d" % i not in PROPS]
